@@ -246,17 +246,38 @@ def _mentions(t, pred):
 
 
 def _affected(f, root, kind):
-    """Can a mutation `kind` = (field path, 'elem'|'replace') on `root` change the value of a term in f?"""
+    """Can a mutation `kind` = (field path, 'elem'|'replace') on `root` change the value of a term in f?
+    An element write below place root.path changes only element reads idx(B, _) whose base B is that place, a
+    prefix of it (the object itself, read through its Index impl) or lies below it; a replacement also changes
+    every term that mentions the place."""
     from .terms import project
     path, mode = kind
     ts = fact_terms(f)
-    reads_elem = any(_mentions(t, lambda x: x[0] == "idx" and root in term_roots(x[1])) for t in ts)
+    place = project(root, path) if path else root
+
+    def elem_hit(x):
+        if x[0] != "idx" or root not in term_roots(x[1]):
+            return False
+        B = x[1]
+        if not path:
+            return True
+        return B == place or _is_prefix_place(B, place) or _mentions(B, lambda y: y == place)
+    reads_elem = any(_mentions(t, elem_hit) for t in ts)
     if mode == "elem":
         return reads_elem
     if not path:
         return True
-    place = project(root, path)
     return reads_elem or any(_mentions(t, lambda x: x == place) for t in ts)
+
+
+def _is_prefix_place(B, place):
+    """B is the root or an ancestor place of `place`."""
+    p = place
+    while p[0] == "field":
+        p = p[1]
+        if p == B:
+            return True
+    return False
 
 
 def _affected_term(t, root, kind):
